@@ -479,10 +479,42 @@ def array_case(rnd, cid, p=BN128):
     return Case(cid, cfg, b.ins, {"shape": "array", "op": "+".join(hist), "kinds": f"n{n}", "malformed": malformed})
 
 
+def cancel_case(rnd, cid, p=BN128):
+    """linear combinations in which a wire or the constant term cancels exactly, then used in a constraint"""
+    cfg = cfg_for(rnd, p=p)
+    if cfg["bl"] < 6:
+        cfg["bl"] = 8
+    b = Builder(rnd, cfg)
+    q = 1 << (cfg["bl"] // 2 - 1)
+    x = b.operand("L", value=rnd.randrange(-q, q)); y = b.operand(rnd.choice("LLBI"), value=rnd.randrange(0, 2))
+    z = b.operand("L", value=rnd.randrange(1, q))
+    pat = rnd.randrange(6)
+    if pat == 0:
+        t = b.emit(f"bin add r{x} r{y}", "L"); u = b.emit(f"bin sub r{t} r{y}", "L")
+    elif pat == 1:
+        u = b.emit(f"bin sub r{x} r{x}", "L")
+    elif pat == 2:
+        c = b.int_lit(rnd.randrange(1, 5)); t = b.emit(f"bin add r{x} r{c}", "L"); u = b.emit(f"bin sub r{t} r{c}", "L")
+    elif pat == 3:
+        t = b.emit(f"bin sub r{x} r{z}", "L"); u = b.emit(f"bin add r{t} r{z}", "L")
+    elif pat == 4:
+        k = b.int_lit(rnd.randrange(2, 5)); t = b.emit(f"bin mul r{z} r{k}", "L"); t2 = b.emit(f"bin add r{x} r{t}", "L")
+        t3 = b.emit(f"bin sub r{t2} r{z}", "L"); u = t3
+        for _ in range(3):
+            u = b.emit(f"bin sub r{u} r{z}", "L")
+    else:
+        t = b.emit(f"un neg r{x}", "L"); u = b.emit(f"bin add r{t} r{x}", "L")
+    r = b.emit(f"bin mul r{u} r{z}", "L")
+    b.emit(f"bin lt r{u} r{z}", "B")
+    b.emit(f"call val r{r}", "I")
+    return Case(cid, cfg, b.ins, {"shape": "cancel", "op": f"pattern{pat}", "kinds": b.kinds[y], "malformed": False})
+
+
 def generate(rnd, n, prefix, mix=None, p=BN128):
     """mix: list of (weight, generator function)"""
     mix = mix or [(5, op_case), (1, unop_case), (2, method_case), (1, ite_case), (2, chain_case), (1, guarded_case),
                   (1, array_case)]
+    mix = list(mix) + [(max(1, sum(w for w, _ in mix) // 15), cancel_case)]
     tot = sum(w for w, _ in mix)
     out = []
     for i in range(n):
